@@ -614,6 +614,10 @@ class Escape:
     def _is_filter_none(self, e):
         if isinstance(e, ast.Call) and dotted(e.func) in ("list", "tuple") and e.args:
             e = e.args[0]
+        if isinstance(e, (ast.ListComp, ast.GeneratorExp)) and len(e.generators) == 1:
+            g = e.generators[0]
+            if norm(e.elt) == norm(g.target) and any(norm(c) == norm(g.target) for c in g.ifs):
+                return True  # [w for w in xs if w]: only truthy (non-empty) members
         return (isinstance(e, ast.Call) and dotted(e.func) == "filter" and e.args
                 and isinstance(e.args[0], ast.Constant) and e.args[0].value is None)
 
@@ -732,6 +736,8 @@ class Escape:
         for key in (d, name, d.split(".")[-1] if d else None):
             if key in EXT_RAISES:
                 for exc in EXT_RAISES[key]:
+                    if key.endswith("Fraction") and exc == "ZeroDivisionError" and len(node.args) < 2:
+                        continue  # only Fraction(n, 0) divides
                     out.append((exc, text))
                 return out
         for key in (d, name):
